@@ -131,7 +131,9 @@ def body_locate(c, ctx):
     finder = m.element_finder()
     inside = [p for p in pts if p[0] != 'outside']
     outside = [p for p in pts if p[0] == 'outside']
-    sig = dict(mesh=desc['cls'])
+    # quadrilaterals, hexahedra and prisms are located through a split into simplices: points interior to a cell can lie on the
+    # internal faces of the split, where the simplex finders' tolerance (the known finding) applies as on cell boundaries
+    sig = dict(mesh=desc['cls'], split_cells=kind in ('quad', 'hex', 'wedge'))
     # one call per point class (a rejected point would otherwise hide the others), then all of them at once
     for pclass in sorted({p[0] for p in inside}):
         P = [p for p in inside if p[0] == pclass]
